@@ -130,6 +130,57 @@ func codecArgs(k uint64) []string {
 	return []string{"--codec", n}
 }
 
+// damagePatch edits the text `car debug` wrote: kind 0 drops a line, 1 cuts the text short, 2 repeats a
+// line, 3 overwrites a byte, 4 changes a hunk header's line counts, 5 changes a block's mode word.
+func damagePatch(p []byte, kind, n uint64) []byte {
+	lines := bytes.SplitAfter(p, []byte("\n"))
+	pickLine := func(prefix string) int {
+		var idx []int
+		for i, l := range lines {
+			if i > 0 && bytes.HasPrefix(l, []byte(prefix)) {
+				idx = append(idx, i)
+			}
+		}
+		if len(idx) == 0 {
+			return -1
+		}
+		return idx[int(n%uint64(len(idx)))]
+	}
+	switch kind % 6 {
+	case 0:
+		if i := pickLine(""); i >= 0 {
+			lines = append(lines[:i:i], lines[i+1:]...)
+		}
+	case 1:
+		if len(p) > 20 {
+			return p[:20+int(n%uint64(len(p)-20))]
+		}
+	case 2:
+		if i := pickLine(""); i >= 0 {
+			lines = append(lines[:i+1:i+1], lines[i:]...)
+		}
+	case 3:
+		if len(p) > 20 {
+			q := append([]byte(nil), p...)
+			q[20+int(n%uint64(len(p)-20))] = byte(' ' + n%90)
+			return q
+		}
+	case 4:
+		if i := pickLine("@@ "); i >= 0 {
+			lines[i] = []byte(fmt.Sprintf("@@ -0,%d +0,%d @@\n", n%7, n%5))
+		}
+	case 5:
+		if i := pickLine("+++ "); i >= 0 {
+			f := bytes.Fields(lines[i])
+			if len(f) >= 3 {
+				f[1] = []byte([]string{"raw", "dag-json", "dag-cbor", "nonsense"}[n%4])
+				lines[i] = append(bytes.Join(f, []byte(" ")), '\n')
+			}
+		}
+	}
+	return bytes.Join(lines, nil)
+}
+
 func flagOn(flags VL, i int) bool { return i < len(flags) && vnum(flags[i]) != 0 }
 
 // verbose listing: "<codec>: <cid>" lines, everything indented belongs to the block above
@@ -429,6 +480,26 @@ func runCliImpl(c *Ctx, cmd string, flags VL, files VL) Val {
 		}
 		sort.Slice(bl, func(i, j int) bool { return bytes.Compare(bl[i].Cid.Bytes(), bl[j].Cid.Bytes()) < 0 })
 		return VL{VT("ok"), cidsVal(br.Roots), blksVal(bl), VN(uint64(len(out))), postVal(c, dir, "out.car", true)}
+	case "compilebad":
+		// car debug, the patch text damaged, car compile: whatever compile makes of it, it must not crash, and
+		// an output it reports success for must be an archive inspect --full accepts.  (n1) = holds.
+		if r1 := carRun(c, dir, "debug", "-o", "p.patch", names[0]); r1.status != "ok" {
+			return VL{VN(1)}
+		}
+		p, _ := os.ReadFile(filepath.Join(dir, "p.patch"))
+		p = damagePatch(p, vnum(flags[0]), vnum(flags[1]))
+		os.WriteFile(filepath.Join(dir, "p.patch"), p, 0o644)
+		r2 := carRun(c, dir, "compile", "-o", "out.car", "p.patch")
+		c.Count("compilebad:compile-" + r2.status)
+		switch r2.status {
+		case "crash":
+			return VL{VN(0), VB(p)}
+		case "ok":
+			if i := carRun(c, dir, "inspect", "--full", "out.car"); i.status != "ok" {
+				return VL{VN(2), VB(p)}
+			}
+		}
+		return VL{VN(1)}
 	case "listfile":
 		r := carRun(c, dir, "list", names[0], "out.txt")
 		b, _ := os.ReadFile(filepath.Join(dir, "out.txt"))
